@@ -8,7 +8,10 @@ import (
 	"github.com/buildbuildio/pebbles/gqlerrors"
 	"github.com/buildbuildio/pebbles/queryer"
 	"github.com/vektah/gqlparser/v2/ast"
+	"github.com/vektah/gqlparser/v2/gqlerror"
 )
+
+var _ gqlerror.List
 
 var _ = queryer.QueryCalls
 var _ gqlerrors.ErrorList
@@ -27,6 +30,9 @@ func PointIndexOK(point string) bool { panic("ghost") }
 //@ returns res, err
 //@ requires ctx != nil && ctx.QueryPlan != nil && ctx.Request != nil
 //@ requires forallT(u, string, has(ctx.Queryers, u) ==> ctx.Queryers[u] != nil)
+//@ ensures[res-or-err] err == nil ==> res != nil @props C09 C07
+//@ ensures[err-no-data] err != nil ==> res == nil @props C09
+//@ ensures[err-nonempty] err != nil ==> !is(err, gqlerror.List) && (is(err, gqlerrors.ErrorList) ==> len(err.(gqlerrors.ErrorList)) >= 1) @props C09
 //@ modifies fresh, entries(map[string]interface{}), elems(interface{}), elems(map[string]interface{}), global(queryer.QueryCalls)
 //@ end
 
@@ -52,6 +58,7 @@ func PointIndexOK(point string) bool { panic("ghost") }
 //@ returns pd, err
 //@ ensures[nonnil] err == nil ==> pd != nil
 //@ assumes-post err == nil && PointIndexOK(point) && IsListPoint(point) ==> pd.Index >= 0
+//@ assumes-post err != nil ==> !is(err, gqlerror.List) && !is(err, gqlerrors.ErrorList)
 //@ modifies fresh, entries(map[string]*PointData)
 //@ end
 
@@ -158,8 +165,10 @@ func PointIndexOK(point string) bool { panic("ghost") }
 //@ props C09
 //@ ensures[len] len(result) == len(v)
 //@ ensures[rows] forall(k, 0, len(v), len(result[k]) == len(v[k]))
+//@ ensures[fresh] fresh(result) && forall(k, 0, len(v), fresh(result[k]))
 //@ modifies fresh
-//@ loop 0 invariant[rows] forall(k, 0, it, len(res[k]) == len(v[k])) && len(res) == len(v) && fresh(res)
+//@ loop 0 invariant[rows] forall(k, 0, it, len(res[k]) == len(v[k]) && fresh(res[k])) && len(res) == len(v) && fresh(res)
+//@ loop 1 invariant[rows] forall(k, 0, i, len(res[k]) == len(v[k]) && fresh(res[k])) && len(res) == len(v) && fresh(res) && len(res[i]) == len(v[i]) && fresh(res[i])
 //@ end
 
 //@ func mergeMaps
@@ -194,12 +203,24 @@ func PointIndexOK(point string) bool { panic("ghost") }
 //@ requires extractor != nil && source != nil
 //@ assumes forall(k, 0, len(path), PointIndexOK(path[k]))
 //@ ensures[nonnil] err == nil ==> obj != nil
+//@ ensures[errkind] err != nil ==> !is(err, gqlerror.List) && !is(err, gqlerrors.ErrorList)
 //@ loop 0 invariant[recent] recent != nil
 //@ loop 1 invariant[pad] len(targetList) == i + 1
 //@ end
 
+//@ define rowsLen(b [][]string, n int) bool = forall(k, 0, len(b), len(b[k]) == n)
 //@ func FindInsertionPoints
 //@ props C09 C01
+//@ returns points, err
+//@ requires forall(k, 0, len(startingPoints), len(startingPoints[k]) == len(startingPoints[0]))
+//@ modifies fresh
+//@ loop 0 invariant[rows] pointI >= 0 && rowsLen(oldBranch, pointI) && fresh(oldBranch)
+//@ loop 1 invariant[rows] pointI >= 0 && rowsLen(oldBranch, pointI) && fresh(oldBranch) && fresh(newInsertionPoints)
+//@ loop 2 invariant[copy] pointI >= 0 && rowsLen(oldBranch, pointI) && fresh(oldBranch) && fresh(newBranchSet) && len(newBranchSet) == len(oldBranch) && forall(k, 0, it, len(newBranchSet[k]) == pointI) && forall(k, it, len(newBranchSet), len(newBranchSet[k]) == 0)
+//@ loop 3 invariant[ext] pointI >= 0 && rowsLen(oldBranch, pointI) && fresh(oldBranch) && fresh(newBranchSet) && len(newBranchSet) == len(oldBranch) && forall(k, 0, it, len(newBranchSet[k]) == pointI + 1) && forall(k, it, len(newBranchSet), len(newBranchSet[k]) == pointI)
+//@ loop 4 invariant[ext] pointI >= 0 && fresh(oldBranch) && forall(k, 0, it, len(oldBranch[k]) == pointI + 1) && forall(k, it, len(oldBranch), len(oldBranch[k]) == pointI)
+//@ loop 5 invariant[rows] pointI >= 0 && fresh(oldBranch) && rowsLen(oldBranch, pointI + 1)
+//@ loop 6 invariant[rows] pointI >= 0 && fresh(oldBranch) && rowsLen(oldBranch, pointI + 1)
 //@ end
 
 //@ func extractID
@@ -227,6 +248,10 @@ func PointIndexOK(point string) bool { panic("ghost") }
 
 //@ func (*DepthExecutorManager).Execute
 //@ props C09 C12 C06
+//@ returns res, err
+//@ ensures[res-or-err] err == nil ==> res != nil
+//@ ensures[err-no-data] err != nil ==> res == nil
+//@ ensures[err-nonempty] err != nil ==> !is(err, gqlerror.List) && (is(err, gqlerrors.ErrorList) ==> len(err.(gqlerrors.ErrorList)) >= 1)
 //@ requires dem != nil && dem.depthExecutors != nil && dem.result != nil && dem.pointDataExtractor != nil && dem.maxDepth >= 0
 //@ requires forall(d, 0, dem.maxDepth+1, has(dem.depthExecutors, d))
 //@ loop 1 invariant[depth] depth >= 0
@@ -236,6 +261,7 @@ func PointIndexOK(point string) bool { panic("ghost") }
 //@ func (*DepthExecutorManager).merge
 //@ props C09 C01
 //@ requires dem != nil && dem.result != nil && dem.pointDataExtractor != nil && resp != nil
+//@ ensures[errkind] result != nil ==> !is(result, gqlerror.List) && !is(result, gqlerrors.ErrorList)
 //@ end
 
 //@ func walkPlanStep
@@ -259,6 +285,7 @@ func PointIndexOK(point string) bool { panic("ghost") }
 //@ returns res, err
 //@ requires wfDE(de)
 //@ ensures[nonnil] err == nil ==> res != nil
+//@ ensures[err-nonempty] err != nil ==> !is(err, gqlerror.List) && (is(err, gqlerrors.ErrorList) ==> len(err.(gqlerrors.ErrorList)) >= 1)
 //@ modifies-assumed fresh, entries(map[string]interface{}), elems(interface{}), elems(map[string]interface{}), entries(map[string]*PointData), global(queryer.QueryCalls), all(indexMapValue.indexes), elems(int)
 //@ fold 0 invariant[acc] acc != nil
 //@ end
